@@ -120,6 +120,9 @@ func c18(args []string) error {
 			name = "TN93"
 			pi = randSimplex(r, 4, 32)
 			k1, k2 := kappas[r.Intn(len(kappas))], kappas[r.Intn(len(kappas))]
+			if r.Intn(5) == 0 { // repeated eigen value (F81-like)
+				k1, k2 = dyadic{1, 1}, dyadic{1, 1}
+			}
 			params = []dyadic{k1, k2}
 			mm := dna.NewTN93Model()
 			p := pif()
@@ -131,6 +134,11 @@ func c18(args []string) error {
 			rates := make([]dyadic, 6)
 			for k := range rates {
 				rates[k] = dyadic{1 + r.Intn(16), 4}
+			}
+			if r.Intn(6) == 0 { // equal rates: repeated eigen value
+				for k := range rates {
+					rates[k] = rates[0]
+				}
 			}
 			params = rates
 			mm := dna.NewGTRModel()
